@@ -160,7 +160,14 @@ class Server(object):
         self._check_close_code(reply)
 
     def _encrypt_session(self):
-        if not self.io.encrypt_socket_server(self.context):
+        # The handshake waits on the client: a handshake that does not
+        # complete within the command timeout has failed.
+        try:
+            with Timeout(self.command_timeout):
+                encrypted = self.io.encrypt_socket_server(self.context)
+        except Timeout:
+            encrypted = False
+        if not encrypted:
             return False
         self._call_custom_handler('TLSHANDSHAKE')
         self._call_custom_handler('TLSHANDSHAKE2', self.io.socket)
